@@ -58,6 +58,7 @@ type MemData struct {
 	WithAbort  bool // writers implement Abort
 	ObjectLike bool // reads through an open handle fail once the file is tombstoned
 	ShortWrite bool // a failing Write applies half of the bytes first
+	DeferredGC bool // TombstoneFile only marks the file; its bytes stay readable (garbage collected later)
 
 	// ReadLog, when set, observes every Read of every handle (offset before the read, bytes read).
 	ReadLog func(ptr string, off int64, n int)
@@ -276,7 +277,9 @@ func (d *MemData) TombstoneFile(ctx context.Context, ptrBytes []byte) error {
 	}
 	d.mu.Lock()
 	d.tomb[ptr] = true
-	delete(d.files, ptr)
+	if !d.DeferredGC {
+		delete(d.files, ptr)
+	}
 	d.mu.Unlock()
 	d.Hook.exit("TombstoneFile", ptr, nil)
 	return nil
